@@ -157,6 +157,21 @@ A = {a.name: a for a in [
     _a("q,r=qs", "q, r = qs", T("a0", "move"), T("a1", "move"), P("q"), P("r")),
     _a("comp-measure(qs)", "bs = array(measure(x) for x in qs)", T("a0"), T("a1")),
     _a("for-consume(qs)", "for x in qs:\n    consume(x)", T("a0"), T("a1")),
+    # projections out of UNNAMED tuples / structs / arrays: every other linear component is lost
+    _a("r=pair()[0]", "r = mkpair()[0]", ("XV", "r")),
+    _a("r=pair()[1]", "r = mkpair()[1]", ("XV", "r")),
+    _a("r=triple()[1]", "r = mktriple()[1]", ("XV", "r")),
+    _a("r=triple()[2]", "r = mktriple()[2]", ("XV", "r")),
+    _a("r=mixed()[0]", "r = mkmixed()[0]", P("r")),
+    _a("k=mixed()[1]", "k = mkmixed()[1]", ("XV", "r")),
+    _a("r=mixed2()[1]", "r = mkmixed2()[1]", P("r")),
+    _a("k=mixed2()[0]", "k = mkmixed2()[0]", ("XV", "r")),
+    _a("r=mks2().g", "r = mks2().g", ("XV", "r")),
+    _a("r=mks2().f", "r = mks2().f", ("XV", "r")),
+    _a("r=mks().f", "r = mks().f", P("r")),
+    _a("r=mkarr()[0]", "r = mkarr()[0]", ("XV", "r")),
+    _a("r=(q,new)[0]", "r = (q, qubit())[0]", ("XV", "r")),
+    _a("r=(1,q)[1]", "r = (1, q)[1]", T("q", "move"), P("r")),
     # returns
     _a("return", "return", kind="return"),
     _a("return q", "return q", T("q", "return"), kind="return"),
@@ -210,6 +225,10 @@ FAMILIES = {
     "arrays": (_pick("qs=array(new,new)"),
                _pick("h(qs[0])", "cx(qs[0],qs[1])", "consume(qs[0])", "q=qs[1]", "discard_array(qs)", "q,r=qs",
                      "comp-measure(qs)", "for-consume(qs)", "qs=array(q,r)", "consume(q)", "consume(r)", "return"), "None"),
+    "project": (_pick("q=new"),
+                _pick("r=pair()[0]", "r=pair()[1]", "r=triple()[1]", "r=triple()[2]", "r=mixed()[0]", "k=mixed()[1]", "r=mixed2()[1]",
+                      "k=mixed2()[0]", "r=mks2().g", "r=mks2().f", "r=mks().f", "r=mkarr()[0]", "r=(q,new)[0]", "r=(1,q)[1]",
+                      "consume(r)", "consume(q)", "return"), "None"),
     # thorough only
     "core+": (_pick("q=new"),
               _pick("q=new", "r=new", "h(q)", "h(r)", "consume(q)", "consume(r)", "r=q", "q=r",
@@ -225,10 +244,10 @@ def bounds(tier: str):
     if tier == "quick":
         return [("core", 4, 2), ("live", 4, 2), ("params", 3, 2), ("tuple", 3, 2),
                 ("struct", 3, 2), ("struct2", 3, 2), ("retq", 3, 2), ("balanced", 3, 2), ("exotic", 2, 1),
-                ("forms", 3, 2), ("tensor", 3, 2), ("arrays", 3, 2)]
+                ("forms", 3, 2), ("tensor", 3, 2), ("arrays", 3, 2), ("project", 2, 1)]
     return [("core", 5, 3), ("live", 5, 3), ("params", 4, 3), ("tuple", 4, 2), ("struct", 4, 2),
             ("struct2", 4, 2), ("retq", 4, 3), ("balanced", 4, 3), ("core+", 4, 2), ("exotic", 3, 2),
-            ("forms", 4, 2), ("tensor", 4, 2), ("arrays", 4, 2)]
+            ("forms", 4, 2), ("tensor", 4, 2), ("arrays", 4, 2), ("project", 3, 2)]
 
 
 def programs(tier: str):
@@ -286,6 +305,9 @@ def _step_factory(events: set):
                     events.add("viol:overwrite-leak")
                     return ()
                 st[i] = "O"
+            elif op[0] == "XV":
+                events.add("viol:linear-component-of-unnamed-value-lost")
+                return ()
             elif op[0] == "XC":
                 # a use that is illegal whatever the state: moving an element out of an array by subscript,
                 # capturing a non-copyable variable in a closure
@@ -370,6 +392,20 @@ def borrow_s(s: S) -> None: ...
 @guppy.declare
 def consume_t(t: tuple[qubit, qubit] @owned) -> None: ...
 @guppy.declare
+def mkpair() -> tuple[qubit, qubit]: ...
+@guppy.declare
+def mktriple() -> tuple[qubit, int, qubit]: ...
+@guppy.declare
+def mkmixed() -> tuple[qubit, int]: ...
+@guppy.declare
+def mkmixed2() -> tuple[int, qubit]: ...
+@guppy.declare
+def mks2() -> S2: ...
+@guppy.declare
+def mks() -> S: ...
+@guppy.declare
+def mkarr() -> array[qubit, 2]: ...
+@guppy.declare
 def ident(q: qubit @owned) -> qubit: ...
 @guppy.declare
 def app(f: Callable[[qubit], None], q: qubit) -> None: ...
@@ -377,7 +413,7 @@ def app(f: Callable[[qubit], None], q: qubit) -> None: ...
 def appo(f: Callable[[qubit @owned], None], q: qubit @owned) -> None: ...
 '''
 HEADER = (f"from {PRELUDE_MOD} import guppy, qubit, owned, h, S, S2, consume, consume_s, "
-          f"consume_u, borrow_s, consume_t, ident, app, appo, array, barrier, cx, measure, discard_array, state_result\n")
+          f"consume_u, borrow_s, consume_t, mkpair, mktriple, mkmixed, mkmixed2, mks2, mks, mkarr, ident, app, appo, array, barrier, cx, measure, discard_array, state_result\n")
 
 
 def _ensure_prelude() -> None:
